@@ -199,7 +199,7 @@ def run(F, R, tier):
             r3.require(ok, (fn, "apply"), "%s::apply does not call the stored function with the input" % ty)
     tr = F.traits.get(CM + "::Command")
     if r3.anchor(tr, "Command trait"):
-        sealed = any(not s.get("reachable", True) for s in tr["supertraits"])
+        sealed = any(s.get("exported") is False for s in tr["supertraits"])
         r3.site("Command supertraits %s" % tr["supertraits"])
         r3.require(sealed, (CM + "::Command", "sealed"), "the Command trait is no longer sealed")
     r3.floor(6)
